@@ -12,6 +12,14 @@ CHECKS = {
             "TLC exhausts the implementation-shaped model of streamlexer.go (arrays, bufferPool free/reuse/in-place/allocate, growth rule, one step per underlying Read) against the property-level spec for all reader schedules and call sequences on streams of 4-5 bytes; each emitted behaviour is executed on the real StreamLexer with a scripted reader and compared with the model; thousands of random histories with random chunkers, sizes, free disciplines and long streams (memory clause, hook VerifHeld) are validated event by event by TLC against Stream.tla, which watches every handed-out slice for stability.",
             "Bounded: stream length <= 5, depth 6 calls in the exhaustive part; memory bound is the generous 16*(size+token+backlog)+64. Trusted: TLC, the scripted reader, the harness's absolute-offset arithmetic. One recorded finding (Lexeme slices across refills) is listed in known_findings.jsonl.",
             "DESIGN.md §4 C13"),
+    "C01": ("TLA+ protocol spec NextProtocol.tla (no action for panic/hang/fatal) judging TLC-generated inputs (all class strings, nesting families) and harvested test literals run through every entry point; TLC trace validation",
+            "TLC enumerates every string of character classes up to length 3-4 per language and every recursive construct x depth (to 10^5 quick, 10^6 thorough) x truncation variant; the harness drives each input through every entry point (css lexer/parser/inline, html + 6 template dialects, xml, json, js lexer with/without RegExp, js.Parse x 4 Options followed by String/JS/Walk/JSON), continuing after errors and after the end; deep cases run in child processes so that fatal stack exhaustion is observed; every recorded call is validated by TLC against NextProtocol.tla (in-bounds cursor and slices, linear call bound, final and repeated end report, sticky io.EOF).",
+            "Bounded input length for the exhaustive part; representatives per class chosen by seed. 'End report' is read as an error report repeated identically. Trusted: TLC, slice-address arithmetic, recover()/process exit status.",
+            "DESIGN.md §4 C01"),
+    "C02": ("TLA+ token-stream spec TokenStream.tla judging, by TLC trace validation, every token the css/js/html/xml lexers return on TLC-generated class strings and harvested test literals",
+            "Same TLC-generated input space as C01; for each token the harness measures its location in the caller's array by slice address, capacity, the bytes it differs in from the pristine input, uncovered bytes before it, sub-slice containment and (CSS/JS) whether lexing it alone yields it again; TLC validates every token event against TokenStream.tla.",
+            "Gap/edit rules for HTML/XML are judged up to the first error report (DESIGN.md §4 C02 reading). RegExp() results are outside this property. Trusted: TLC, slice-address arithmetic.",
+            "DESIGN.md §4 C02"),
 }
 NOT_APPLICABLE = {
 }
